@@ -13,12 +13,12 @@ import (
 
 // SimDriver is the real gtp5g driver wired to a simulated kernel.
 type SimDriver struct {
-	G   *forwarder.Gtp5g
-	K   *Kernel
-	UDP *net.UDPConn // socket buffered packets are re-injected from
-	WG  *sync.WaitGroup
-	sh  *sentinelHandler
-	mc  *SimConn // simulated multicast connection served by the real mux
+	G        *forwarder.Gtp5g
+	K        *Kernel
+	UDP      *net.UDPConn // socket buffered packets are re-injected from
+	WG       *sync.WaitGroup
+	sh       *sentinelHandler
+	mc       *SimConn // simulated multicast connection served by the real mux
 	conn, ps *SimConn
 }
 
